@@ -370,7 +370,7 @@ func SpecMatch(pattern string, hasWild bool, s string) bool {
 //@   ensures[C01] result ==> (forall k string :: has(r.Changed, k) && r.Changed[k].Type == codec.ValueTypeDelete ==> !has(rs.model.Values, k) && has(r.OldValues, k))
 //@   ensures[C01] result ==> (forall k string :: has(r.Changed, k) && r.Changed[k].Type != codec.ValueTypeDelete ==> has(rs.model.Values, k) && rs.model.Values[k] == r.Changed[k])
 //@   ensures[C01] result ==> (forall k string :: !has(r.Changed, k) ==> has(rs.model.Values, k) == has(r.OldValues, k) && rs.model.Values[k] == r.OldValues[k])
-//@   ensures rs.subs == old(rs.subs) && rs.resetting == old(rs.resetting)
+//@   assigns rs.model, rs.version, r.Changed, r.OldValues, r.Update, alloc(), elemsof(map[string]codec.Value)
 //@   safety[C15]
 //@   loop 1 invariant m != nil && m != rs.model.Values && rs.model == old(rs.model) && rs.model.Values == old(rs.model.Values) && props != m && props != rs.model.Values
 //@   loop 1 invariant forall k string :: has(rs.model.Values, k) == old(has(rs.model.Values, k)) && rs.model.Values[k] == old(rs.model.Values[k])
@@ -446,6 +446,28 @@ func SpecMatch(pattern string, hasWild bool, s string) bool {
 //@   noframe
 //@   safety[C15]
 //@   loop 1 invariant (rs.query == "" ==> rs.e.base == nil) && (rs.query != "" ==> !has(rs.e.queries, rs.query))
+
+// --- the per-resource work queue (C03, C13) ------------------------------------------------------
+
+// processQueue runs, under the entry's mutex, first the pending unlock callbacks and then the
+// queued callbacks in index order. Rely (R2): a callback, and the goroutines that run while it
+// has released the mutex, only append to e.queue and e.locks (entries already there stay, in
+// order; the capacity of an active lock does not change) or activate a new lock.
+//@ func (*EventSubscription).processQueue
+//@   requires e != nil
+//@   invokes len(e.queue) >= old(len(e.queue)) && (forall k int :: 0 <= k && k < old(len(e.queue)) ==> e.queue[k] == old(e.queue[k]))
+//@   invokes old(e.locks) != nil ==> e.locks != nil && cap(e.locks) == old(cap(e.locks)) && len(e.locks) >= old(len(e.locks)) &&
+//@       (forall k int :: 0 <= k && k < old(len(e.locks)) ==> e.locks[k] == old(e.locks[k]))
+//@   assert[C13] f#1: e.locks != nil && f == e.locks[idx-1]
+//@   assert[C03,C13] f#2: e.locks == nil && f == e.queue[idx-1]
+//@   ensures[C13] old(e.locks) != nil && invoked() - old(invoked()) < old(cap(e.locks)) ==>
+//@       e.locks != nil && cap(e.locks) == old(cap(e.locks)) - (invoked() - old(invoked()))
+//@   ensures[C03] e.locks == nil ==> len(e.queue) == 0
+//@   safety[C15]
+//@   loop 1 invariant e.locks != nil && 0 <= idx && idx <= len(e.locks) && invoked() == old(invoked()) + idx && cap(e.locks) == old(cap(e.locks))
+//@   loop 2 let inv0 = invoked()
+//@   loop 2 invariant e.locks == nil && 0 <= idx && idx <= len(e.queue)
+//@   loop 2 invariant[C03] invoked() == inv0 + idx
 
 // --- query events (C13) --------------------------------------------------------------------
 
